@@ -81,7 +81,8 @@ _TABLE = None
 def _init(table):
     global _TABLE
     _TABLE = table
-    sys.path.insert(0, "/repo")
+    from ..core import REPO
+    sys.path.insert(0, str(REPO))
 
 
 def check_name(s, chars_cls, want_spec=True):
